@@ -72,9 +72,14 @@ def S(xs):
     return {'S': list(xs)}
 
 
+NAME_MODES = ['str', 'int0', 'empty0']        # candidate naming: 'c3' as it is | the int 3 | '' for candidate 0 (falsy names)
+_CNAME = __import__('re').compile(r'c\d+')
+
+
 class _Dec:
-    def __init__(self):
+    def __init__(self, mode=None):
         self.memo = {}
+        self.mode = mode
 
     def obj(self, spec):
         import votelib.candidate as vc
@@ -118,6 +123,10 @@ class _Dec:
             if tag == 'O':
                 return self.obj(v)
             raise ValueError(x)
+        if isinstance(x, str) and self.mode in ('int0', 'empty0') and _CNAME.fullmatch(x):
+            if self.mode == 'int0':
+                return int(x[1:])
+            return '' if x == 'c0' else x
         return x
 
     def _key(self, k):
@@ -1168,8 +1177,8 @@ def _perturb(k):
     (_RNG_ORIG.get('seed') or _r.seed)(k)
 
 
-def _invoke(t, obj, c, perturb=None):
-    dec = _Dec()
+def _invoke(t, obj, c, perturb=None, mode=None):
+    dec = _Dec(mode)
     args = [dec(a) for a in c['a']]
     kw = {k: dec(v) for k, v in c.get('k', {}).items()}
     before = enc([args, kw], ordered=True)
@@ -1209,7 +1218,7 @@ def run_history(case):
     # fresh instances first (nothing of this history has happened yet)
     for i, c in enumerate(calls):
         t = T[names[c['t']]]
-        out, mut, tr = _invoke(t, t['make'](), c, perturb=100003 * i + 17)
+        out, mut, tr = _invoke(t, t['make'](), c, perturb=100003 * i + 17, mode=case.get('names'))
         obs['fresh'].append(out)
         obs['rng_fresh'].append(tr.events[:64])
         if mut:
@@ -1223,7 +1232,7 @@ def run_history(case):
             shared[c['t']] = t['shared']() if 'shared' in t else t['make']()
         obj = shared[c['t']]
         s0 = _state(obj)
-        out, mut, tr = _invoke(t, obj, c)
+        out, mut, tr = _invoke(t, obj, c, mode=case.get('names'))
         s1 = _state(obj)
         obs['rng'].append(tr.events[:64])
         for site in tr.sites:
@@ -1244,7 +1253,7 @@ def run_history(case):
     for i, c in enumerate(calls):
         t = T[names[c['t']]]
         if t.get('seed') is not None:
-            out, _, _ = _invoke(t, t['make'](), c, perturb=7919 * i + 5)
+            out, _, _ = _invoke(t, t['make'](), c, perturb=7919 * i + 5, mode=case.get('names'))
             obs['repeat'].append(out)
         else:
             obs['repeat'].append(None)
@@ -1305,6 +1314,8 @@ def without_foreign(case):
     remap = {t: j for j, t in enumerate(used)}
     sub = {'op': 'history', 'targets': [case['targets'][t] for t in used],
            'calls': [dict(case['calls'][i], t=remap[case['calls'][i]['t']]) for i in keep]}
+    if case.get('names'):
+        sub['names'] = case['names']
     return sub, {i: j for j, i in enumerate(keep)}
 
 
@@ -1641,6 +1652,21 @@ def untabled_classes():
     return out
 
 
+_generate_str = generate
+
+
+def generate(rng, tier):       # noqa: a quarter of the histories use int ids or '' for candidate 0
+    TG = TARGETS()
+    for case in _generate_str(rng, tier):
+        r = rng.random()
+        if r < 0.25 and not any(TG[n].get('objects') for n in case['targets']):
+            # the validator models assume candidates the nominator accepts: it takes strings, not ints
+            validators = any(TG[n].get('model') in ('rankval', 'scoreval') for n in case['targets'])
+            case['names'] = 'int0' if r < 0.125 and not validators else 'empty0'
+            case['_tags'] = case['_tags'] + ['names:' + case['names']]
+        yield case
+
+
 def nontrivial(case, obs):
     return 'err' not in obs and len(case['calls']) >= 2 and any('ok' in o for o in obs['shared'])
 
@@ -1657,7 +1683,9 @@ RULE = ('call sequences of length 2-6 (profiles of 2-5 candidates, 1-5 ballot ty
 # the Lean state machines on the same histories
 
 def _cid(name):
-    return int(name[1:])
+    if isinstance(name, int):
+        return name
+    return 0 if name == '' else int(name[1:])
 
 
 def _bj(x):
@@ -1773,7 +1801,7 @@ def search(rng, tier):
                 c['t'] = ti
                 calls.append(c)
             yield _mk(targets, calls, ['search'])
-    yield from generate(rng, 'quick')
+    yield from _generate_str(rng, 'quick')
 
 
 def _compare(case, iobs, mobs):
@@ -1863,9 +1891,16 @@ def describe(case):
     TG = TARGETS()
     lines = []
     for i, n in enumerate(case['targets']):
-        lines.append(f'obj{i} = <{n}>   # one shared instance; compared with a fresh instance per call')
+        if i in (case.get('foreign') or []):
+            lines.append(f'obj{i} = <{n}>   # FOREIGN object: the reference for the other objects is the same history without '
+                         'its calls, in an interpreter that never saw it')
+        else:
+            lines.append(f'obj{i} = <{n}>   # one shared instance; compared with a fresh instance per call')
+    if case.get('names'):
+        lines.append(f"# candidate naming mode {case['names']}: 'c3' stands for " + ("3" if case['names'] == 'int0' else "'c3', 'c0' for ''"))
     for c in case['calls']:
-        args = ', '.join([repr(decode(a)) for a in c['a']] + [f'{k}={decode(v)!r}' for k, v in c.get('k', {}).items()])
+        dec = _Dec(case.get('names'))
+        args = ', '.join([repr(dec(a)) for a in c['a']] + [f'{k}={dec(v)!r}' for k, v in c.get('k', {}).items()])
         lines.append(f"obj{c['t']}.{c['m']}({args})")
     return '\n'.join(lines)
 
